@@ -125,6 +125,19 @@ CLAIMS["C17"] = ("decision-path enumeration of the streaming loop (release call 
     "(run-time Arc counts, lag of the printing thread).",
     "DESIGN.md §3 C17")
 
+CLAIMS["C12"] = ("taint analysis from the length of block zero to RangeMap lookup keys and the acceptance comparisons of the blockzero_analysis family, lifted read-site rules (C05) and write-order rule (C02), const-evaluated CLI bounds against the comparisons in cli_process_blocksz",
+    "Static necessary-condition check: no value derived from the length of block zero may select the count deciding file acceptance (fires "
+    "today: known finding F4, two keys); every decoder hands out completely filled blocks and direct stdout writes are ordered after the "
+    "pending buffer, so part sizes cannot reorder bytes; the CLI enforces the const-evaluated block-size bounds. It does NOT decide the "
+    "offset/block arithmetic, multi-block line assembly or boundary-straddling timestamps.",
+    "DESIGN.md §3 C12")
+CLAIMS["C02"] = ("loop-carried def-use of the stream cursor and message payload provenance in exec_syslogprocessor, resolved iterator types of the sysline printers, dominance of the supplied-newline write, must-pass-through of the buffer flush before any direct stdout write in all printer variants",
+    "Static necessary-condition check of the hand-over stages ONLY: cursor threading and one send per found message, forward adapter-free "
+    "traversal of lines and parts in the printers, final newline only for an unterminated last message, direct stdout writes only after the "
+    "pending buffer was written. The line/message reassembly arithmetic (find_line, LinePart stitching, find_sysline_year, block-zero "
+    "pre-parsing) is explicitly outside static reach and not decided.",
+    "DESIGN.md §3 C02")
+
 NA_REASON = {}
 
 checks = []
